@@ -196,4 +196,18 @@ PROPS = {
         "components": {"real": REAL, "stub": STUB_COMMON + ["entry through core.Location (System and HTTP entry are exercised by C18/C17 worlds)"]},
         "assumptions": ["well-formed JSON only (the statement's quantifier)"],
     },
+    "C17": {
+        "level": "exploration",
+        "build": "plain",
+        "tiers": tiers(1500, 60, 40000, 900),
+        "rule": "world twins: one request history (3-4 created locations plus a never-created one, 20-40 requests - AddFact with ttl/deleteWith, RemFact, GetFact, "
+                "SearchFacts own/inherited, AddRule with and without condition, RemRule, EnableRule, ProcessEvent, SetParents, Clear - and sleeps of 0.5 ms to 4 s) "
+                "executed in seven engines at once: bare core.Locations (no cache) and sys.System with cache TTL in {never, 1 ms, forever} x CheckExistence in "
+                "{off, on}, each over its own SimStorage and persistent SimCron; every request must return the same normalised result in all of them; with "
+                "existence checking a request to the never-created location must fail, leave no storage record and no cache entry. World firstload "
+                "(instrumented build): N concurrent first requests for one location under scheduler control cause exactly one Storage.Load. "
+                "Non-trivial: every request; distinct = distinct (operation, result) pairs.",
+        "components": {"real": ["sys.System incl. CachedLocations", "core", "cron.AddHooks"], "stub": STUB_COMMON + ["SimCron (persistent Cronner)"]},
+        "assumptions": ["generated ids are compared as 'generated'", "the created-marker property is not searched for"],
+    },
 }
